@@ -86,7 +86,10 @@ class _C(object):
 
 
 class _H(object):
-  def __init__(self, out):
+  def __init__(self, out, app=None):
+    self.app = dict(app or {})      # behaviour of the application's listeners (see _rec)
+    self.refreshed = set()          # connections that got a features reply after their handshake during this op
+    self.up_obs = []                # what an application sees in the registry while ConnectionUp is delivered
     setup()
     import pox.openflow.of_01 as of_01
     import pox.core
@@ -122,7 +125,39 @@ class _H(object):
       elif kind == "ConnectionUp":
         tag = e.dpid
       self.log.append((level, kind, idx, tag))
+      if kind == "ConnectionUp" and c is not None:
+        self._observe_up(level, c, e)
+      elif kind == "ConnectionDown" and self.app.get("down") and level == self.app.get("down_level", "nexus"):
+        # an application that cleans up in its ConnectionDown handler
+        if self.app["down"] == "close" and self.app_may_close:
+          e.connection.close()
+        else:
+          e.connection.disconnect()
     return h
+
+  app_may_close = True
+
+  def _observe_up(self, level, c, e):
+    """an application's ConnectionUp handler looks the datapath up in the registry (and may send to it)"""
+    nexus = self.w.nexus
+    ok = set([c.idx])
+    for o in self.cs:
+      if o is not c and o.m.up and not o.m.lost and o.m.dpid == c.m.peer_dpid and o.idx > c.idx:
+        ok.add(o.idx)             # opened later, announced earlier: either may count as the most recent
+    reg = nexus.getConnection(e.dpid)
+    rc = self.by_id.get(id(reg)) if reg is not None else None
+    got = None if reg is None else (rc.idx if rc is not None else -1)
+    listed = e.dpid in nexus.connections.dpids
+    sent = None
+    if self.app.get("send_on_up") and level == self.app.get("send_level", "nexus") and not any(o.armed and not o.sock.fatal for o in self.cs):
+      self.xid_seq += 1
+      payload = sb.echo_request(0x61000000 | self.xid_seq, b"on-up")
+      before = [len(o.sock.sent) for o in self.cs]
+      r = nexus.sendToDPID(e.dpid, payload)
+      writers = [o.idx for i, o in enumerate(self.cs) if bytes(o.sock.sent[before[i]:])]
+      exact = all(bytes(o.sock.sent[before[i]:]) in (b"", payload) for i, o in enumerate(self.cs))
+      sent = (r, writers, exact)
+    self.up_obs.append((level, c.idx, sorted(ok), got, listed, sent))
 
   # ---- connections
   def open(self, d):
@@ -240,6 +275,9 @@ class _H(object):
     if t == "feat":
       ports = [{"no": 1, "hw": b"\x02\x00\x00\x00\x0a\x01", "name": "eth1"},
                {"no": 2, "hw": b"\x02\x00\x00\x00\x0a\x02", "name": "eth2"}]
+      if c.m.up:
+        self.refreshed.add(c.idx)      # a features reply after the handshake (the application asked again)
+        self.out.label("features-reply-after-handshake" + ("/superseded" if c.m.superseded else ""))
       return sb.features_reply(self.xid_seq, c.m.peer_dpid, ports), lambda: m.features(c.m)
     if t == "desc":
       return sb.desc_stats_reply(self.xid_seq), None
@@ -432,9 +470,22 @@ def _check(h, op):
         miss = lc.missing_mandatory(c.m, delivered)
         if miss:
           out.fail("port-status-missing", "connection %d: port-status %r arrived after the features reply but no PortStatus event on the %s; delivered %r (after op %r)" % (c.idx, miss, level, delivered, op), level=level)
+  # ---- what an application saw from inside its ConnectionUp handler
+  for level, idx, ok, got, listed, sent in h.up_obs:
+    if h.cs[idx].m.unjudged:
+      continue
+    if got not in ok or not listed:
+      out.fail("registry-during-connection-up", "connection %d: while ConnectionUp was delivered on the %s, the registry mapped its dpid to %s (listed=%s); the connection being announced is the datapath's most recent live one" % (
+          idx, level, "nothing" if got is None else "connection %d" % got, listed), level=level, saw="nothing" if got is None else "another-connection")
+    if sent is not None:
+      r, writers, exact = sent
+      if r is not True or len(writers) != 1 or writers[0] not in ok or not exact:
+        out.fail("send-to-dpid-during-connection-up", "connection %d: sendToDPID from a ConnectionUp handler on the %s returned %r and wrote to sockets %r" % (idx, level, r, writers), level=level)
+  h.up_obs = []
   # ---- registry
   _check_registry(h, op)
   h.before = now
+  h.refreshed = set()
   h.prev_real = _real_registry(h)
 
 
@@ -488,6 +539,9 @@ def _check_registry(h, op):
         why = "other"
       out.fail("registry", "registry maps %s to connection %d which is %s (op %r)" % ("%#x" % d if d is not None else None, r, why, op),
                cause="entry-not-live-or-not-handshaken", why=why, none_key=(d is None))
+    elif r in h.refreshed:
+      out.fail("registry", "dpid %#x: a features reply on the superseded connection %d put it back into the registry in place of the datapath's most recent live connection %d (op %r)" % (
+          d, r, e[0].idx, op), cause="stale-connection-re-registered-by-features-reply")
     else:
       out.fail("registry", "dpid %#x: registry has connection %d, most recent live connection is %d (op %r)" % (d, r, e[0].idx, op),
                cause="wrong-connection")
@@ -537,13 +591,15 @@ def run_case(case):
   out = Outcome()
   if case["k"] == "loop":
     out.label("driver:real-OpenFlow_01_Task-loop")
-    h = _HL(out)
+    h = _HL(out, case.get("app"))
     try:
       _run_loop(h, case["ops"])
     finally:
       h.close()
     return out
-  h = _H(out)
+  h = _H(out, case.get("app"))
+  if h.app:
+    out.label("app:" + ",".join("%s=%s" % kv for kv in sorted(h.app.items())))
   try:
     _run(h, case["ops"])
   finally:
@@ -557,8 +613,10 @@ class _HL(_H):
   """Connections are accepted, read and closed by the real OpenFlow_01_Task.run() (driven as a generator by
   pvf.sim.loops.ControllerLoop); the harness only chooses what each select() round reports."""
 
-  def __init__(self, out):
-    _H.__init__(self, out)
+  app_may_close = False      # (in this driver a closed socket is the sign that the LOOP closed the connection)
+
+  def __init__(self, out, app=None):
+    _H.__init__(self, out, app)
     from ..sim import loops
     self.loop = loops.ControllerLoop(self.w)
 
@@ -1050,6 +1108,51 @@ def enum_two(tier):
           yield {"k": "hist", "ops": ops}
 
 
+_APPS = [{"send_on_up": 1, "send_level": "nexus"}, {"send_on_up": 1, "send_level": "con"},
+         {"down": "disconnect", "down_level": "nexus"}, {"down": "disconnect", "down_level": "con"},
+         {"down": "close", "down_level": "nexus"}, {"down": "close", "down_level": "con", "send_on_up": 1, "send_level": "nexus"}]
+
+
+def enum_app(tier):
+  """applications that act from inside their handlers: sendToDPID from the ConnectionUp handler, disconnect() /
+  close() from the ConnectionDown handler -- over all merges of two lifecycles, and around a core DownEvent"""
+  up = lambda i: [["m", i, ["hello"]], ["m", i, ["feat"]], ["m", i, ["bar", "right"]]]
+  for app in _APPS:
+    for same in (True, False):
+      for ka, kb in (("eof", "disc"), ("disc", "rst"), ("sendfail", "eof")):
+        la = [[["open", 0]], [["m", 0, ["hello"]], ["m", 0, ["feat"]]], [["m", 0, ["bar", "right"]], ["m", 0, ["ps", 2, 0]]], _loss_ops(0, ka)]
+        db = 0 if same else 1
+        lb = [[["open", db]], [["m", 1, ["hello"]], ["m", 1, ["feat"]], ["m", 1, ["ps", 0, 1]]], [["m", 1, ["berr"]]], _loss_ops(1, kb)]
+        for merge in _merges([["a0", "a1", "a2", "a3"], ["b0", "b1", "b2", "b3"]]):
+          ops = []
+          for t in merge:
+            ops.extend((la if t[0] == "a" else lb)[int(t[1])])
+            ops.append(["send", 0])
+          if merge.index("b0") < merge.index("a0"):
+            ops = _swap01(ops)
+          yield {"k": "hist", "ops": ops, "app": app}
+    for dpids in ([0], [0, 1], [0, 1, 0]):
+      ops = [["open", d] for d in dpids]
+      for i in range(len(dpids)):
+        ops += up(i)
+      ops += [["down"], ["send", 0], ["poll"], ["send", 1]]
+      yield {"k": "hist", "ops": ops, "app": app}
+
+
+def enum_refresh(tier):
+  """a features reply after the handshake (the application asked for the features again) on the newest, on a
+  superseded and on the only connection of a datapath, before and after the other one goes away"""
+  up = lambda i: [["m", i, ["hello"]], ["m", i, ["feat"]], ["m", i, ["bar", "right"]]]
+  for d1 in (0, 1):
+    for who in (0, 1):
+      for before in ([], [["lose", 1 - who, "eof"]], [["disc", 1 - who]]):
+        for after in ([], [["lose", who, "eof"]], [["lose", 1 - who, "eof"]]):
+          ops = [["open", 0]] + up(0) + [["open", d1]] + up(1) + [["send", 0]] + before + [["m", who, ["feat"]], ["send", 0], ["send", 1],
+                 ["m", who, ["ps", 2, 0]]] + after + [["send", 0], ["send", 1], ["poll"], ["send", 0]]
+          yield {"k": "hist", "ops": ops}
+  yield {"k": "hist", "ops": [["open", 0]] + up(0) + [["m", 0, ["feat"]], ["send", 0], ["m", 0, ["feat"]], ["lose", 0, "eof"], ["send", 0]]}
+
+
 def _swap01(ops):
   res = []
   for op in ops:
@@ -1157,6 +1260,10 @@ def _script(draw, i, tier):
   # tail while (possibly) announced
   for _ in range(draw(st.integers(0, 3))):
     ops.append(["m", i, draw(_msg_async), 0])
+  if draw(st.integers(0, 5)) == 0:
+    ops.append(["m", i, ["feat"], 0])      # the features again, after the handshake
+    if draw(st.booleans()):
+      ops.append(["m", i, draw(_msg_async), 0])
   # an armed send failure somewhere
   if draw(st.integers(0, 5)) == 0:
     ops.insert(draw(st.integers(0, len(ops))), ["sendfail", i])
@@ -1214,13 +1321,16 @@ def _history(draw, tier):
   ops.append(["send", 1])
   if draw(st.integers(0, 3)) == 0:
     ops.insert(draw(st.integers(0, len(ops))), ["down"])
-  return {"k": "hist", "ops": ops}
+  case = {"k": "hist", "ops": ops}
+  if draw(st.integers(0, 2)) == 0:
+    case["app"] = draw(st.sampled_from(_APPS))
+  return case
 
 
 @st.composite
 def _loop_history(draw, tier):
   """a generated history re-expressed for the real loop: messages are queued, select rounds (drawn) deliver them"""
-  base = draw(_history(tier))["ops"]
+  base = draw(_history(tier))["ops"]      # (its "app", if any, is not carried over; one is drawn below)
   ops = []
   spec = lambda: [draw(st.sampled_from([1, 1, 1, 1, 1, 0, 0, 2, 3])) for _ in range(MAX_CONNS)]
   for op in base:
@@ -1239,7 +1349,10 @@ def _loop_history(draw, tier):
     elif o in ("open", "send", "disc"):
       ops.append(op)
     # (cut / sendfail / down belong to the emulated-loop driver)
-  return {"k": "loop", "ops": ops}
+  case = {"k": "loop", "ops": ops}
+  if draw(st.integers(0, 2)) == 0:
+    case["app"] = draw(st.sampled_from(_APPS))
+  return case
 
 
 def plan(tier):
@@ -1252,6 +1365,8 @@ def plan(tier):
       Enum("errors-answering-handshake-requests", lambda: enum_request_errors(tier), shards=4),
       Enum("core-DownEvent", lambda: enum_down(tier), shards=4),
       Enum("real-task-loop", lambda: enum_loop(tier), shards=2),
+      Enum("applications-acting-inside-handlers", lambda: enum_app(tier), shards=4),
+      Enum("features-reply-after-the-handshake", lambda: enum_refresh(tier), shards=1),
       Hyp("histories", lambda: _history(tier), examples=4000, shards=16),
       Hyp("real-task-loop-histories", lambda: _loop_history(tier), examples=1000, shards=8),
     ]
@@ -1263,6 +1378,8 @@ def plan(tier):
     Enum("errors-answering-handshake-requests", lambda: enum_request_errors(tier), shards=8),
     Enum("core-DownEvent", lambda: enum_down(tier), shards=8),
     Enum("real-task-loop", lambda: enum_loop(tier), shards=8),
+    Enum("applications-acting-inside-handlers", lambda: enum_app(tier), shards=8),
+    Enum("features-reply-after-the-handshake", lambda: enum_refresh(tier), shards=2),
     Hyp("real-task-loop-histories", lambda: _loop_history(tier), examples=60000, shards=16),
     Hyp("histories", lambda: _history(tier), examples=300000, shards=16),
   ]
